@@ -28,7 +28,7 @@ vars == <<l, subs, srcN, torn, obs, stageOut, metric, proc, nmetricOff>>
 Ev == Trace[l]
 Is(e) == l <= Len(Trace) /\ Ev.e = e
 
-MetricNames == {"subs", "in", "out", "lag"}
+MetricNames == {"subs", "in", "out", "lag", "sa_sub", "sa_next", "sa_err", "sa_comp", "sa_lag"}     \* sa_*: the stand-alone operators
 Init == \E i \in Starts : /\ l = i + 1
           /\ subs = [m \in Modes |-> 0] /\ srcN = [m \in Modes |-> 0] /\ torn = [m \in Modes |-> 0]
           /\ obs = [m \in Modes |-> <<>>] /\ stageOut = [k \in Stages |-> 0]
@@ -51,12 +51,19 @@ Step ==
      /\ obs["on"] = obs["ref"] /\ obs["off"] = obs["ref"]
      /\ torn["on"] = torn["ref"] /\ torn["off"] = torn["ref"]
      /\ srcN["on"] = srcN["ref"] /\ srcN["off"] = srcN["ref"]
-     \* exact counters, licence on
-     /\ metric["subs"] = subs["on"]
-     /\ metric["in"] = srcN["on"]
-     /\ metric["out"] = Cardinality({j \in 1..Len(obs["on"]) : obs["on"][j].k = "N"})
-     /\ metric["lag"] = srcN["on"]
-     /\ \A k \in Stages : (stageOut[k] > 0 \/ proc[k] > 0) => proc[k] = stageOut[k]
+     \* exact counters, licence on (PipeN runs export subs / in / out / lag, stand-alone runs export the sa_* family)
+     /\ (metric["sa_sub"] = -1) =>
+           /\ metric["subs"] = subs["on"]
+           /\ metric["in"] = srcN["on"]
+           /\ metric["out"] = Cardinality({j \in 1..Len(obs["on"]) : obs["on"][j].k = "N"})
+           /\ metric["lag"] = srcN["on"]
+     /\ (metric["sa_sub"] # -1) =>
+           /\ metric["sa_sub"] = subs["on"]
+           /\ metric["sa_next"] = Cardinality({j \in 1..Len(obs["on"]) : obs["on"][j].k = "N"})
+           /\ metric["sa_lag"] = metric["sa_next"]
+           /\ metric["sa_err"] = Cardinality({j \in 1..Len(obs["on"]) : obs["on"][j].k = "E"})      \* Error(nil) is an Error
+           /\ metric["sa_comp"] = Cardinality({j \in 1..Len(obs["on"]) : obs["on"][j].k = "C"})
+     /\ (metric["sa_sub"] = -1) => \A k \in Stages : (stageOut[k] > 0 \/ proc[k] > 0) => proc[k] = stageOut[k]
      \* licence off: nothing is exported
      /\ nmetricOff = 0
      /\ PrintT(<<"ACCEPT", Ev.t>>)
